@@ -268,6 +268,16 @@ theorem second_writer_refused (b : Actor) (data : Bytes) (w : W) (hl : lockAbs w
 /-- Gen tie: `Writer.close` ends its work on the directory with `Unlock` (and calls nothing else on it) -/
 theorem writer_close_unlocks : writerCloseDirectoryCalls = ["Unlock"] := by decide
 
+/-- **the snapshot item writer reports a failed flush.** `Persist` reports success when the item writer returned
+no error (`persist_exact_durable` is stated for a writer whose error result tells whether every byte reached the
+file). `(*Snapshot).WriteTo` writes through a `bufio.Writer`: a snapshot smaller than the buffer reaches the file
+ONLY through the final `Flush`, so its error must be returned and must not sit in a `defer`. Regenerated from
+/repo on every run. -/
+theorem gen_snapshot_writer_reports_flush_error :
+    BlugeGen.C13.snapshotWriteToTail =
+      ["err = bw.Flush()", "if err != nil { return bytesWritten, err }", "return bytesWritten, nil"] ∧
+    BlugeGen.C13.snapshotWriteToDefers = [] := by decide
+
 /-- **Why the failure branch must not unlock.** Writer 1 holds the lock; writer 2 is refused and then removes the
 pid file (what `Close()` → `Unlock()` on the failure path of `Lock()` amounts to); writer 3 finds no pid file,
 creates a NEW inode, locks it and is admitted: two writers, each holding "the" exclusive lock. -/
